@@ -83,7 +83,21 @@ func (s *safeBuf) tail() string {
 
 var bin, work string
 
+// freePort: several drivers run in parallel; asking the kernel for a free port and closing it again lets two of
+// them pick the same one.  Every driver process takes its ports from its own block below the ephemeral range.
+var portSeq int
+
 func freePort() string {
+	for try := 0; try < 400; try++ {
+		portSeq++
+		port := 5000 + (os.Getpid()%250)*100 + portSeq%100
+		l, err := net.Listen("tcp", fmt.Sprintf(":%d", port))
+		if err != nil {
+			continue
+		}
+		l.Close()
+		return fmt.Sprint(port)
+	}
 	l, _ := net.Listen("tcp", "127.0.0.1:0")
 	defer l.Close()
 	_, p, _ := net.SplitHostPort(l.Addr().String())
